@@ -13,7 +13,7 @@ LEVEL = "translation_validation"
 
 def run(ctx):
     rng = ctx.rng
-    n = 220 if ctx.quick() else 2200
+    n = 300 if ctx.quick() else 2400
     cases = []
     stats = {"compiled": 0, "compile_errors": {}, "depths": {}, "sym": 0}
     for i in range(n):
@@ -42,24 +42,30 @@ def run(ctx):
             cases.append(execlib.Case(spec, text, ext, data, scal, meta={"syms": syms, "mapping": mp}, extra_ints=syms))
     # index-math (convolution-like) Einsums with the output rank shape-partitioned and the input rank following it
     from props import c04
-    for i in range(n // 4):
-        es = specgen.gen_affine_einsum(rng)
+    import patterns
+    misaligned = []
+    for i in range(n // 2):
+        es = specgen.gen_affine_einsum(rng, extra_p=0.4)
         mp, kind, syms = specgen.affine_mapping(rng, es, part_p=1.0)
         y = specgen.yaml_of(es["decl"], [es["expr"]], mp)
         try:
             spec = runlib.Spec(y)
             text = spec.compile()
-        except (ValueError, KeyError) as e:
+        except Exception as e:
             k = type(e).__name__ + ": " + str(e)[:70]
             stats["compile_errors"][k] = stats["compile_errors"].get(k, 0) + 1
             continue
         stats["affine"] = stats.get("affine", 0) + 1
-        for j in range(2 if ctx.quick() else 3):
+        mis = patterns.eager_inputs_aligned(text)
+        if mis:
+            misaligned.append((spec, text, mis, len(cases)))
+        for j in range((2 if ctx.quick() else 3) + (40 if mis else 0)):
             ext = specgen.affine_extents(rng, es)
-            data, scal = runlib.gen_inputs(spec, ext, rng, density=rng.choice([1.0, 0.8, 0.5]))
+            data, scal = runlib.gen_inputs(spec, ext, rng, density=rng.choice([1.0, 0.7, 0.5, 0.3]))
             cases.append(execlib.Case(spec, text, ext, data, scal, extra_ints=syms,
                                       meta={"affine": True, "flags": c04.flags_of(text, mp, es["out"]), "syms": syms, "mapping": mp}))
     execlib.evaluate(cases, "c02")
+    c04.report_misaligned(ctx, misaligned, cases)
     bad = 0
     for c in cases:
         r = c.result
@@ -85,7 +91,7 @@ def run(ctx):
         "programs": distinct, "executions": len(cases), "disagreements_checked": bad, "evaluations": len(cases),
         "distinct_nontrivial": distinct, "population": stats,
         "rule": "random Einsums x 1-2 partitioned ranks x stacks of 1-3 uniform_shape/nway_shape (literal or symbolic, sizes 1-7) x any loop order over "
-                "the levels (30% well-ordered) x random rank orders; plus (a quarter as many) index-math Einsums O[q] = I[a*q+b*s]*F[s](*G) with Q shape-partitioned, W following; 2-3 inputs each with extents 1-9 (smaller than, equal to, not divisible by the sizes)",
+                "the levels (30% well-ordered) x random rank orders; plus (half as many) index-math Einsums O[q] = I[a*q+b*s]*F[s](*G) with Q shape-partitioned, W following; 2-3 inputs each with extents 1-9 (smaller than, equal to, not divisible by the sizes)",
         "samples": [{"yaml": cases[i].spec.yaml, "extents": cases[i].extents, "syms": cases[i].extra_ints, "result": cases[i].raw} for i in (0, len(cases) // 2)],
         "trusted_base": ["Coq 8.16.1 kernel + VM", "Model/Rt.v splitUniform/mergeRanks/swizzleRanks model", "Model/Interp.v", "tools/py2coq.py", "Model/Einsum.v"],
     })
